@@ -329,3 +329,38 @@ func (s *Script) render(timeoutMs int, only map[*Obligation]bool) (string, []*Ob
 	}
 	return b.String(), order
 }
+
+// renderSingle produces a non-incremental script for one obligation: everything
+// that precedes it, then the negated goal and one check-sat (no push/pop, nothing after).
+func (s *Script) renderSingle(target *Obligation, model bool) string {
+	var b strings.Builder
+	b.WriteString(prelude)
+	for _, it := range s.items {
+		for _, d := range it.Decls {
+			b.WriteString(d)
+			b.WriteByte('\n')
+		}
+		switch it.Kind {
+		case ItAssume:
+			fmt.Fprintf(&b, "(assert %s)\n", it.Term)
+		case ItCheck:
+			o := it.Obl
+			if o == target {
+				if o.Cover {
+					fmt.Fprintf(&b, "(assert %s)\n", it.Term)
+				} else {
+					fmt.Fprintf(&b, "(assert (not %s))\n", it.Term)
+				}
+				b.WriteString("(echo \"@@ 0\")\n(check-sat)\n")
+				if model {
+					b.WriteString("(get-model)\n")
+				}
+				return b.String()
+			}
+			if !o.Cover && !o.Candidate {
+				fmt.Fprintf(&b, "(assert %s)\n", it.Term)
+			}
+		}
+	}
+	return b.String()
+}
